@@ -88,9 +88,11 @@ META["C18"] = dict(cat="model_checking", design="6 C18",
                    text="MC_Round checks the model of rounding::round against constructive rounding and the oracle on structured "
                         "64-bit significands for two small formats; the real round() is run over the exponent range with "
                         "significands built per shift (carry / tie / just below / just above) and adjudicated by TLC; the model "
-                        "must reproduce the returned (mant, exp) (drift reported).",
+                        "must reproduce the returned (mant, exp) (drift reported). In addition Apalache proves the arithmetic lemma "
+                        "(q+up is a nearest multiple of 2^shift, even on ties; q the largest below) for all 2^63 significands, for "
+                        "two literal shifts in quick and all 64 in thorough.",
                    note="Truncating variant judged below 2^(emax+1) only (the callers' domain; above it the code saturates to infinity). " + _TB,
-                   tech="TLC model checking of Rounding.tla + trace validation of round() records against the oracle")
+                   tech="TLC model checking of Rounding.tla + trace validation of round() records against the oracle; Apalache lemma per literal shift")
 
 META["C13"] = dict(cat="model_checking", design="6 C13",
                    text="MC_Vec explores the vector specification exhaustively (2-bit limbs, capacity 3, every operation and "
